@@ -213,6 +213,9 @@ impl Check for NftConsecutive {
     fn components(&self) -> serde_json::Value {
         serde_json::json!({"real": ["examples/nft-consecutive (from source)", "non_fungible::{Base, consecutive::Consecutive, sequential, burnable}"], "stub": ["Wallet"]})
     }
+    fn clock_step(&self, n: u32) -> Option<Step> {
+        Some(Step::Advance { n })
+    }
     fn probes(&self, _prop: &str) -> std::vec::Vec<&'static str> {
         vec!["probe.batch_crosses_bucket", "probe.full_sweep"]
     }
